@@ -598,3 +598,127 @@ class _H2:
 
 def alarm_attribute_not_narrowed(src):
     _attr_guard(_H2(), src.lib["x"])
+
+
+# ---- the assignment that certainly reaches a read (block-local strong update) -------------------------------------------
+def ok_reaching_def_in_else(src):
+    try:
+        g = src.glyphs["a"]
+    except KeyError:
+        g = None
+    else:
+        g = deepcopy(g)
+        g.width = 1
+
+
+def alarm_reaching_def_other_branch(src):
+    if src.flag:
+        g = deepcopy(src)
+    else:
+        g = src
+    g.width = 1
+
+
+def ok_reaching_def_in_loop(src):
+    for x in src.glyphs:
+        g = x
+        g = deepcopy(g)
+        g.width = 1
+
+
+def alarm_reaching_def_loop_carried(src):
+    g = deepcopy(src)
+    for x in src.glyphs:
+        g.width = 1  # sees the binding of the previous iteration
+        g = x
+
+
+def alarm_reaching_def_nested_rebind(src):
+    g = deepcopy(src)
+    if src.flag:
+        g = src
+    g.width = 1
+
+
+def alarm_reaching_def_try_interrupted(src):
+    g = src
+    try:
+        g = deepcopy(src.other)  # may raise before binding
+    except Exception:
+        g.width = 1
+
+
+def alarm_reaching_def_handler_binds(src):
+    g = deepcopy(src)
+    try:
+        src.check()
+    except Exception:
+        g = src
+    g.width = 1
+
+
+def alarm_reaching_def_while_header(src):
+    g = deepcopy(src)
+    n = 0
+    while g.ok and n < 2:
+        g.width = 1
+        g = src
+        n += 1
+
+
+def alarm_reaching_def_walrus_between(src):
+    g = deepcopy(src)
+    if (g := src) is not None:
+        pass
+    g.width = 1
+
+
+def alarm_reaching_def_tuple_target_between(src):
+    g = deepcopy(src)
+    g, h = src, 1
+    g.width = 1
+
+
+def alarm_reaching_def_for_target_between(src):
+    g = deepcopy(src)
+    for g in [src]:
+        pass
+    g.width = 1
+
+
+def alarm_reaching_def_with_target(src):
+    g = deepcopy(src)
+    with src.ctx() as g:
+        pass
+    g.width = 1
+
+
+def alarm_reaching_def_closure_deferred(src):
+    g = deepcopy(src)
+    f = lambda: g.anchors.clear()  # noqa: E731
+    g = src
+    f()
+
+
+def ok_reaching_def_rhs_reads_old(src):
+    g = src
+    g = deepcopy(g)
+    h = g
+    h.width = 1
+
+
+def alarm_reaching_def_del_between(src):
+    g = deepcopy(src)
+    del g
+    g = src
+    g.width = 1
+
+
+def alarm_reaching_def_match(src):
+    g = deepcopy(src)
+    match src.kind:
+        case 1:
+            g = src
+        case _:
+            pass
+    g.width = 1
